@@ -1,4 +1,7 @@
 #include <yaclib/fault/detail/fiber/mutex.hpp>
+#ifdef YACLIB_VERIF
+#  include <yaclib/fault/detail/verif.hpp>
+#endif
 
 namespace yaclib::detail::fiber {
 
@@ -7,17 +10,29 @@ void Mutex::lock() {
     _queue.Wait(NoTimeoutTag{});
   }
   _occupied = true;
+#ifdef YACLIB_VERIF
+  verif::Event(verif::kLock, this, 0, 0, 0);
+#endif
 }
 
 bool Mutex::try_lock() noexcept {
   if (_occupied) {
+#ifdef YACLIB_VERIF
+    verif::Event(verif::kOther, this, 0, 0, 0);
+#endif
     return false;
   }
   _occupied = true;
+#ifdef YACLIB_VERIF
+  verif::Event(verif::kLock, this, 0, 0, 0);
+#endif
   return true;
 }
 
 void Mutex::unlock() noexcept {
+#ifdef YACLIB_VERIF
+  verif::Event(verif::kUnlock, this, 0, 0, 0);
+#endif
   _occupied = false;
   _queue.NotifyOne();
 }
